@@ -27,6 +27,35 @@ class OwnGen(StmtGen):
         heavy = [T, L(Z), L(T), L(K), L(C), self.struct_ty, L(self.struct_ty), V]
         self.types = heavy * 3 + [Z, W, C, K]
 
+    # a part of a TEMPORARY Kombination (struct literal, function result, element of a temporary list) as an arm of a 'falls'
+    # expression: each arm is evaluated in a scope of its own, so the part has to be moved out of (or copied from) a holder that
+    # is released when the arm ends; the same for the other consumers that open scopes (conditions, loop collections)
+    def temp_struct(self, d):
+        r = self.r
+        fs = [f for f in self.prog.funcs if f.ret == self.struct_ty and not any(p.ref for p in f.params)]
+        roll = r.random()
+        if fs and roll < 0.35:
+            f = r.choice(fs)
+            return Call(f, [self.expr(p.ty, max(0, d - 2)) for p in f.params], self.struct_ty)
+        if roll < 0.55:
+            return Bin("index", ListLit(L(self.struct_ty), [self.lit(self.struct_ty) for _ in range(r.randint(1, 2))]), Lit(Z, 1), self.struct_ty)
+        return StructLit(self.struct_ty, [self.lit(Z), self.lit(T), self.lit(L(Z))])
+
+    def temp_field(self, ty, d):
+        return Field(self.temp_struct(d), {T: "name", L(Z): "werte"}[ty], ty)
+
+    def expr(self, ty, d):
+        r = self.r
+        if d > 0 and self.struct_ty is not None and ty in (T, L(Z)) and r.random() < 0.14:
+            self.cells.add(("temp_field", str(ty)))
+            if r.random() < 0.7:
+                a = self.temp_field(ty, d) if r.random() < 0.7 else self.leaf(ty)
+                b = self.temp_field(ty, d) if (r.random() < 0.6 or not isinstance(a, Field)) else self.leaf(ty)
+                self.cells.add(("falls_arm_is_part_of_temporary", str(ty)))
+                return Ter("falls", a, self.expr(W, d - 1) if r.random() < 0.5 else self.leaf(W), b, ty)
+            return self.temp_field(ty, d)
+        return super().expr(ty, d)
+
 
 def ledger_report(path):
     viol, summary, live = [], None, []
